@@ -41,14 +41,15 @@ CLAUSES = {
         "proved (legacy_eq_spec, legacy_digest_eq_spec, legacy_one_cases)",
     "BIP143 digest for the seven hash types": "proved (bip143_eq_spec, bip143_digest_eq_spec)",
     "BIP341/342 digest: key and script path, annex, SINGLE without output rejected":
-        "proved (bip341_eq_spec, bip341_digest_eq_spec, bip341_single_without_output, tapleaf_eq_spec)",
-    "dispatch: algorithm, ext_flag, annex per BIP16/141/341 (annex not a script-path element)":
-        "proved (annex_eq_spec, extflag_eq_spec, route_p2pkh, route_p2sh_legacy, route_p2wpkh, route_p2wsh, route_p2sh_p2wpkh, route_p2sh_p2wsh, route_p2tr)",
+        "proved (bip341_eq_spec, bip341_digest_eq_spec, tapleaf_eq_spec, tapleaf_canonical)",
+    "dispatch: algorithm, script code, ext_flag, annex per BIP16/141/341 (annex not a script-path element)":
+        "proved (annex_eq_spec, extflag_eq_spec, route_p2pkh, route_p2sh_legacy, route_p2wpkh, route_p2wsh, "
+        "route_p2sh_p2wpkh, route_p2sh_p2wsh, route_p2tr, spec_dispatch_native)",
     "history independence: every query answers for the current fields, after any operations":
-        "proved (history_independent, query_pure) for the repaired code; the memoising variant: F05d_witness",
+        "proved (history_independent, query_pure) for the repaired code; the memoising variant fails: F05d_witness",
     "the source is the repaired variant (no memoisation, has_annex needs two elements)":
         "re-extracted on every run (Gen.sighashMemo, Gen.annexMinItems) and compared with Cfg.repaired by the harness",
-    "non-standard hash types, malformed arguments": "correspondence-only",
+    "non-standard hash types, malformed arguments, script codes with OP_CODESEPARATOR or non-minimal pushes": "correspondence-only",
 }
 TRUSTED = ["sha256 / hash256 are parameters of every theorem; the driver instantiates them with Buidl.Model.Hash.SHA256 "
            "(checked against hashlib by harness/hash_selftest.py)",
@@ -600,6 +601,27 @@ def run(ctx):
         if ops[-1][0] != "Q":
             ops.append(("Q", q_auto(rng.randrange(len(cur["ins"])), rng.choice(STD))))
         hists.append((tx0, ops))
+
+    # ---- the specification's dispatcher against the rule each generated input was built for
+    disp = []
+    for _, tx, _ in singles[:: max(1, len(singles) // ctx.n(400))]:
+        for inp in tx["ins"]:
+            if inp.get("rule") and inp.get("spk"):
+                redeem = "-"
+                if inp["kind"].startswith("p2sh"):
+                    redeem = xb(inp["script_sig"]["cmds"][-1])
+                disp.append((inp, f"spec_dispatch {xb(T.raw_script(inp['spk']))} {redeem} {T.t_witness(inp['witness'])}"))
+    for (inp, line), got in zip(disp, drv.batch([l for _, l in disp])):
+        rule = inp["rule"]
+        if rule[0] == "bip341":
+            want = f"bip341 {1 if rule[2] else 0} {'-' if rule[1] is None else xb(rule[1])}"
+        else:
+            want = f"{rule[0]} {xb(rule[1])}"
+        if got == want:
+            rec.ok("spec_dispatch", line[:300])
+        else:
+            rec.disagreement("spec_dispatch", {"line": line, "kind": inp["kind"]}, want, got,
+                             note="Spec.Sighash.dispatch differs from the rule the input was generated for")
 
     # ---- model and specification answers
     single_lines = [f"q {T.t_tx(tx)} {q}" for _, tx, q in singles]
